@@ -252,16 +252,28 @@ class FInt(SInt):
     def _order(self, o, what):
         raise EngineLimit("order comparison %s on field values (only range facts of the representation invariant are known)" % what)
 
+    def _smt(self, o):
+        """comparison with a plain SMT integer: decided on the SMT side (atoms are integers there too)"""
+        return isinstance(o, SInt) and not isinstance(o, FInt)
+
     def __lt__(self, o):
+        if self._smt(o):
+            return mkbool(self.t < o.t)
         return self.F.order(self, o, "<")
 
     def __le__(self, o):
+        if self._smt(o):
+            return mkbool(self.t <= o.t)
         return self.F.order(self, o, "<=")
 
     def __gt__(self, o):
+        if self._smt(o):
+            return mkbool(self.t > o.t)
         return self.F.order(self, o, ">")
 
     def __ge__(self, o):
+        if self._smt(o):
+            return mkbool(self.t >= o.t)
         return self.F.order(self, o, ">=")
 
 
